@@ -324,7 +324,7 @@ def _specs():
                       kernel_initializer="zeros")],
                 pwl_factors, lambda c: pl.PWLCalibration(**c)))
   # fix e215d06: list lengths must all be positive (zero, negative, a zero in front of a None: all() short-circuits)
-  LEN = [None, [1.0, 2.0], [1.0], [], [0.0, 0.0, 1.0], [1.0, 0.0], [1.0, -0.5], [1, 2], (1.0, 2.0), [0.0, None], [0, 1]]
+  LEN = [None, [1.0, 2.0], [1.0], [], [0.0, 0.0, 1.0], [1.0, 0.0], [1.0, -0.5], [1, 2], (1.0, 2.0), [0.0, None], [0, 1], [1.0, None], [None, 0.0], [1.0, 'x'], [[1.0], 2.0]]
   def pwc_factors(b):
     return dict(monotonicity=MONO1, convexity=CONV, lengths=LEN, output_min=OUTB, output_max=OUTB)
   S.append(Spec("PWLCalibrationConstraints", "pwlConstraints",
